@@ -242,6 +242,8 @@ class Cluster:
             self.proxy.close()
         self._kill(self.follower)
         self._kill(self.leader)
+        if os.environ.get("C09_KEEP"):      # debugging aid: keep the data dirs and logs (under the run's scratch dir)
+            shutil.copytree(self.root, os.environ["C09_KEEP"] + "-" + os.path.basename(self.root), dirs_exist_ok=True)
         shutil.rmtree(self.root, ignore_errors=True)
 
     def log_text(self, name):
@@ -370,6 +372,7 @@ def _dat_payload_len(dat):
 
 # ---- the handshake as the real nodes logged it ------------------------------------------------------------------------
 RE_ID = r"([0-9a-f]{32})"
+FILECUT_K = int(os.environ["C09_FILECUT_K"]) if os.environ.get("C09_FILECUT_K") else None   # force the number of file records before the cut
 
 
 def ordinal(aof_id):
@@ -486,8 +489,8 @@ class Workload:
 
 # ---- one scenario run -----------------------------------------------------------------------------------------------------
 class Run:
-    def __init__(self, ctx, seed, root, ring=2048, label=""):
-        self.ctx, self.seed, self.label = ctx, seed, label
+    def __init__(self, seed, root, ring=2048, label=""):
+        self.seed, self.label = seed, label
         self.cl = Cluster(root, ring, ring)     # initial = max size: no growth, so the buffered range depends on record sizes only
         self.rnd = random.Random(seed * 7919 + 13)
         self.trace = []          # what the harness did (the replay)
@@ -505,9 +508,9 @@ class Run:
         return int(info(self.cl.lport).get("current_offset", 0))
 
     def violation(self, sig, what):
-        self.mon.append((sig, what))
-        self.ctx.add_violation(what, sig, {"seed": self.seed, "scenario": self.label, "ring": self.cl.ring, "steps": self.trace[-60:],
-                                           "how": "tools/props/c09_eproc.py (real leader + follower processes); re-run with ./check C09 and VERIF_SEED"})
+        self.mon.append((sig, what, {"seed": self.seed, "scenario": self.label, "ring": self.cl.ring, "steps": list(self.trace[-60:]),
+                                     "how": "tools/props/c09_eproc.py: real leader + follower processes; re-run: VERIF_SEED=<seed> ./check C09 thorough "
+                                            "(timing is not reproducible, the seed, the scenario and the steps are)"}))
 
     # -- quiescence + comparison
     def settle(self, where, timeout=14.0, cause=""):
@@ -585,46 +588,54 @@ class Run:
             self.cl._kill(p)
 
     # -- handshake differential (only for handshakes that happened while the leader was idle)
-    def check_handshakes(self, where, idle=True, expect=None):
+    def check_handshakes(self, where, n_lo=None, expect=None):
+        """Handshakes the leader logged since the last call. For the differential the model needs the number n of leader records at
+        the moment of the handshake: a full transfer tells it (H is the newest record, or the next one if the buffer is empty); for a
+        resume the caller passes n_lo = the count before the follower could connect, and every n in n_lo‥now is a candidate."""
         txt = self.cl.log_text("leader")
         hs = parse_handshakes(txt, self.log_pos)
         self.log_pos = len(txt)
         if not hs:
             return []
         recs = leader_records(self.cl)
-        n = self.offset()
-        ok_recs = len(recs) == n and all(r[0] == recs[0][0] for r in recs) and [r[1] for r in recs] == list(range(1, n + 1))
+        n_now = self.offset()
+        ok_recs = len(recs) >= n_now - 2 and bool(recs) and all(r[0] == recs[0][0] for r in recs) and [r[1] for r in recs] == list(range(1, len(recs) + 1))
         out = []
+
+        def o(x):
+            return None if x is None else ordinal(x)[1]
         for h in hs:
-            def o(x):
-                return None if x is None else ordinal(x)[1]
             if h["kind"] == "full":
                 impl = f"full:{o(h['h'])}"
             elif h["kind"] == "notfound-full":
                 impl = f"notfound-full:{o(h['h'])}"
             elif h["kind"] == "resume":
-                impl = f"resume:{o(h['r'])}" if h["h"] == h["r"] or o(h["h"]) == o(h["r"]) else f"resume:{o(h['r'])}->{o(h['h'])}"
+                impl = f"resume:{o(h['r'])}" if o(h["h"]) == o(h["r"]) else f"resume:{o(h['r'])}->{o(h['h'])}"
             else:
                 impl = "notfound"
             out.append(impl)
             self.note(f"{where}: handshake {impl}")
-            if idle and ok_recs:
-                evs = ";".join(f"append:{r[2]}" for r in recs)
-                r_ord = o(h.get("r")) if h.get("r") else 0
-                # a follower that reports an id of another append file / a rewrite is outside the model's id space
-                if h.get("r") and recs and ordinal(h["r"])[0] != recs[0][0]:
-                    continue
-                line = f"replsync {self.cl.ring} {self.cl.ringmax} {evs};setid:1:{r_ord};connect:1"
-                self.handshakes.append((line, impl))
+            if not ok_recs or (h.get("r") and ordinal(h["r"])[0] != recs[0][0]):
+                continue     # several append files / a rewrite: outside the model's id space
+            if h["kind"] in ("full", "notfound-full"):
+                cands = [x for x in (o(h["h"]), o(h["h"]) - 1) if 0 <= x <= len(recs)]
+            elif n_lo is not None:
+                cands = [x for x in range(n_lo, min(n_now, len(recs)) + 1)]
+            else:
+                continue
+            r_ord = o(h["r"]) if h.get("r") else 0
+            lines = [f"replsync {self.cl.ring} {self.cl.ringmax} " + ";".join([f"append:{r[2]}" for r in recs[:n]] + [f"setid:1:{r_ord}", "connect:1"])
+                     for n in cands[:12]]
+            self.handshakes.append((lines, impl))
         if expect and out and not any(x.startswith(expect) for x in out):
             self.note(f"{where}: expected a {expect} handshake, saw {out}")
         return out
 
 
-def scenario(ctx, seed, root, kind):
+def scenario(seed, root, kind):
     """kind: 'basic' (full on empty dir, resume after a short gap, full resync after a long gap) or one of the thorough ones."""
-    ring = {"basic": 2048, "cuts": 4096, "filecut": 2048, "filekill": 4096, "emptydir": 2048, "expiredrecord": 2048}[kind]
-    run = Run(ctx, seed, root, ring=ring, label=kind)
+    ring = {"basic": 2048, "cuts": 4096, "filecut": 2048, "filecut0": 2048, "filekill": 4096, "emptydir": 2048, "expiredrecord": 2048, "livegap": 2048}[kind]
+    run = Run(seed, root, ring=ring, label=kind)
     cl = run.cl
     cap = ring // 64
     try:
@@ -642,7 +653,7 @@ def scenario(ctx, seed, root, kind):
             cl.start_follower(empty=True)
             run.note("follower started on an empty data dir (full transfer)")
             run.settle("full transfer after a lock record's own deadline passed", timeout=8, cause="expired-record")
-            run.check_handshakes("initial", idle=False)
+            run.check_handshakes("initial")
             return run
         wl.run(30)
         run.note(f"leader up (ring buffer {ring} bytes = {cap} plain records), 30 ops → {run.offset()} records")
@@ -664,22 +675,40 @@ def scenario(ctx, seed, root, kind):
                 run.note(f"connection cut while idle (records={run.offset()})")
                 wl.run(run.rnd.randrange(3, 12), short=False)
                 time.sleep(0.2)
+                n_lo = run.offset()
                 run.settle(f"after idle cut {i}", timeout=20)
-                run.check_handshakes(f"reconnect after cut {i}", idle=False)
+                run.check_handshakes(f"reconnect after cut {i}", n_lo=n_lo, expect="resume")
             # cut in the middle of a burst
             wl.run(40)
             cl.proxy.cut()
             run.note(f"connection cut during a burst (records={run.offset()})")
             wl.run(40)
             run.settle("after cut during burst", timeout=20)
-            run.check_handshakes("reconnect after burst cut", idle=False)
+            run.check_handshakes("reconnect after burst cut")
             # cut at a byte offset of the live stream
             cl.proxy.cut_after(run.rnd.randrange(200, 3000))
             cl.proxy.cut()
             run.note("connection cut; the next connection will be cut again at a seeded byte offset")
             wl.run(60)
             run.settle("after byte-offset cut in the stream", timeout=26)
-            run.check_handshakes("reconnects after byte-offset cut", idle=False)
+            run.check_handshakes("reconnects after byte-offset cut")
+        elif kind == "livegap":
+            # (c) the connection is cut, both processes stay alive, the leader writes more than the buffer holds before the follower's retry
+            # (5 s later): the SAME follower process is told ERR_NOT_FOUND and must drop its state before the transfer from scratch
+            wl.run(run.rnd.randrange(10, 30))
+            run.settle("before long gap with a live follower")
+            pre = snapshot(cl.fport)
+            cl.proxy.cut()
+            n0 = run.offset()
+            wl.until_offset(n0 + cap * 3 + run.rnd.randrange(0, cap))
+            for key, lid, _ in list(wl.held)[: (2 * len(wl.held)) // 3]:      # release most of what the follower still holds
+                wl._do("unlock", "UNLOCK", key, "LOCK_ID", lid)
+            wl.held = wl.held[(2 * len(wl.held)) // 3:]
+            run.note(f"connection cut at {n0} records, follower stays alive; leader wrote {run.offset() - n0} more (buffer holds {cap}) and released most holds")
+            run.last_full_pre = {(k, h[0]) for k, hs in pre.items() for h in hs}
+            run.settle("reconnect of a live follower after a long gap", timeout=20)
+            run.check_handshakes("live follower after long gap", expect="notfound-full")
+            run.last_full_pre = None
         elif kind == "emptydir":
             wl.run(run.rnd.randrange(20, 60))
             run.settle("before restart on an empty dir")
@@ -694,7 +723,7 @@ def scenario(ctx, seed, root, kind):
             run.check_handshakes("restart on empty dir", expect="full")
             run.last_full_pre = None
             _gap_restart(run, short=True)
-        elif kind == "filecut":
+        elif kind in ("filecut", "filecut0"):
             # (a/c) the connection is cut at a seeded byte offset of the answer / the file phase of a transfer from scratch
             wl.until_offset(run.rnd.randrange(150, 400))
             run.settle("before file-phase cut")
@@ -702,15 +731,22 @@ def scenario(ctx, seed, root, kind):
             wl.run(20)
             n = run.offset()
             # leader→follower bytes: init answer (64), SYNC answer (64 + ~40), then the records; 0 file records = the cut hits before the first one
-            k = run.rnd.choice([0, 0, 1, run.rnd.randrange(2, 40), run.rnd.randrange(40, max(41, n - cap))])
-            cut_at = 64 + 64 + 40 + 64 * k + (8 if k else 0)
+            k = 0 if kind == "filecut0" else FILECUT_K if FILECUT_K is not None else run.rnd.choice([1, run.rnd.randrange(2, 40), run.rnd.randrange(40, max(41, n - cap)), run.rnd.randrange(max(1, n - cap + 3), max(2, n - 2))])
+            # measured: the SYNC answer is complete after < 100 bytes, the first file record after ≈ 170
+            cut_at = 120 if k == 0 else 176 + 64 * (k - 1)
             cl.proxy.cut_after(cut_at)
             cl.start_follower(empty=True)
             run.note(f"follower restarted on an EMPTY dir; its first connection is cut after {cut_at} bytes from the leader (≈ {k} file records of {n})")
             wl.run(10, short=False)
-            cause = "cut-before-first-file-record" if k == 0 else "cut-in-file-phase"
-            run.settle("after a cut in the file phase", timeout=26, cause=cause)
-            run.check_handshakes("file-phase cut", idle=False)
+            time.sleep(6.5)      # the follower retries 5 s after the cut
+            # cause by what actually happened: the follower came back reporting the very id H the leader had just answered (it has
+            # applied nothing yet) and was resumed after it
+            peek = parse_handshakes(cl.log_text("leader"), run.log_pos)
+            early = any(a["kind"] in ("full", "notfound-full") and b["kind"] == "resume" and ordinal(b["r"]) == ordinal(a["h"])
+                        for a, b in zip(peek, peek[1:]))
+            cause = "cut-before-first-file-record" if early else "cut-in-file-phase"
+            run.settle("after a cut in the file phase", timeout=20, cause=cause)
+            run.check_handshakes("file-phase cut")
         elif kind == "filekill":
             # (a) the follower is KILLED in the middle of the file phase and restarted on the same (half-written) data dir
             wl.until_offset(run.rnd.randrange(300, 600))
@@ -727,13 +763,13 @@ def scenario(ctx, seed, root, kind):
             cl.start_follower(empty=False)
             wl.run(10, short=False)
             run.settle("after kill in the file phase", timeout=26, cause="killed-in-file-phase")
-            run.check_handshakes("restart after kill in file phase", idle=False)
+            run.check_handshakes("restart after kill in file phase")
         return run
     finally:
         if run.wl:
             run.wl.close()
         run.alive = (cl.leader is not None and cl.leader.poll() is None, cl.follower is not None and cl.follower.poll() is None)
-        run.logs = {"leader": cl.log_text("leader")[-6000:], "follower": cl.log_text("follower")[-6000:]}
+        run.logs = {n: "\n".join(l for l in cl.log_text(n).splitlines() if "protocol connection" not in l)[-6000:] for n in ("leader", "follower")}
         cl.stop()
 
 
@@ -761,7 +797,28 @@ def _gap_restart(run, short):
         run.last_full_pre = {(k, h[0]) for k, hs in pre.items() for h in hs}
     cl.start_follower(empty=False)
     ok = run.settle("restart after short gap" if short else "restart after long gap")
-    hs = run.check_handshakes("restart same dir", idle=(run.offset() == n1), expect=("resume" if short else "notfound-full"))
+    hs = run.check_handshakes("restart same dir", n_lo=n1, expect=("resume" if short else "notfound-full"))
     run.last_full_pre = None
     run.expected = getattr(run, "expected", []) + [("resume" if short else "notfound-full", hs)]
     return ok
+
+
+# ---- orchestration (called from c09.py) -----------------------------------------------------------------------------------
+def run_scenarios(ctx, jobs, workers=4):
+    """jobs: [(seed, kind)] → list of Run (or (seed, kind, exception)); scenarios run concurrently, each with its own processes and ports"""
+    from concurrent.futures import ThreadPoolExecutor
+    root = os.path.join(ctx.tmp, "c09-eproc")
+    os.makedirs(root, exist_ok=True)
+
+    def one(job):
+        seed, kind = job
+        t0 = time.time()
+        try:
+            r = scenario(seed, os.path.join(root, f"{kind}-{seed}"), kind)
+            r.wall = time.time() - t0
+            return r
+        except Exception as e:   # infrastructure trouble is a broken tie, not a verdict on slock
+            import traceback
+            return (seed, kind, traceback.format_exc()[-1500:])
+    with ThreadPoolExecutor(max_workers=workers) as ex:
+        return list(ex.map(one, jobs))
